@@ -104,7 +104,17 @@ pub fn analyze_type(
         If([cond, then, else_]) => merge(
             enode,
             [x(cond)?, x(then)?, x(else_)?],
-            |[cond, then, else_]| (cond == DataType::Bool && then == else_).then_some(then),
+            |[cond, then, else_]| {
+                // (the NULL literal has a type of its own)
+                if cond != DataType::Bool && cond != DataType::Null {
+                    return None;
+                }
+                match (then, else_) {
+                    (then, else_) if then == else_ => Some(then),
+                    (DataType::Null, ty) | (ty, DataType::Null) => Some(ty),
+                    _ => None,
+                }
+            },
         ),
         In([expr, list]) => {
             let expr = x(expr)?;
